@@ -32,6 +32,10 @@ CHECKS = {
    "initialization.initialize() runs for real on a generated config file with every privileged entry point (socket bind, TLS key load, fork, setpgrp, signal, pwd/grp lookups, chroot, chdir, setgroups, setregid, setreuid and their set*id relatives) replaced by a recorder backed by a process model (root dir, cwd, uid, gid, groups) that enforces the kernel's preconditions and fails one chosen call. The grid (usechroot x setuid x setgid x TLS x detach x server type) x (no fault or each applicable call failing) x (error kind) is finite and enumerated completely in both tiers (evidence: exhaustive=true); order, exactly-once, final credentials, root rewritten, cwd inside the new root, abort on failure and no privileged call after a failure are checked over the recorded call sequence.",
    "Privileged system calls are modelled, not executed; the process is assumed to start as root with a cwd outside the document root.",
    "deterministic simulation of the privileged-syscall seam: recorded call sequence + process model, exhaustive single-fault enumeration over the option grid"),
+ "C03": ("exploration", "3.3",
+   "Seeded histories of 4-16 connections against ONE long-lived real server on a scratch world (cache files and ZIP index caches accumulate, module lazies stay warm, the simulated clock jumps across the cache lifetime), drawn from a grammar of valid requests for every object kind in every protocol and ~90 malformed shapes, with seeded segmentation, missing half-close and missing body bytes (answered after the simulated receive timeout). Per connection: answered and closed, nothing written after close, a protocol object was selected, no socketserver.handle_error, no internal-error log record, response syntactically valid for the answering protocol class (independent validators incl. Gopher+ length = body bytes, no body after Gemini/Spartan error statuses, HEAD without body), closed within timeout+1 simulated seconds, and byte-equal (directory timestamps aside) to the reference server's answer to the same request alone on a pristine world.",
+   "Trusts the simulator, the validators in simkit/proto.py and the reference server. TLS handshakes are always well-formed (stub). One known finding (D17: cache files are retrievable).",
+   "deterministic simulation: request histories on one stateful server with simulated clock, receive timeouts and network segmentation; per-connection invariants + history-independence against a reference run"),
 }
 
 NA = {
@@ -49,7 +53,6 @@ NA = {
 PENDING = {
  "C01": "claimed in DESIGN.md; check not built yet in this revision",
  "C02": "claimed in DESIGN.md; check not built yet in this revision",
- "C03": "claimed in DESIGN.md; check not built yet in this revision",
 }
 
 def main():
